@@ -175,6 +175,46 @@ func verifC02(c *drv.Ctx) {
 			}
 		}
 	}
+	// (i-b) a target that is not IPv4 given TOGETHER with a target file: the argument is still a target
+	// specification and still has to be refused, with nothing sent to the entries of the file
+	for _, cmd := range c01cmds {
+		if !cmd.file {
+			continue
+		}
+		for _, t := range []string{"2001:db8::1", "::ffff:10.0.1.0/120", "::/0", "fe80::1%eth0", "10.0.1.0/33", "10.0.1.300", "10.0.1", "example.org", "[10.0.1.1]", "10.0.1.1:80"} {
+			idx++
+			if !c.Mine(idx) || c.Expired() {
+				continue
+			}
+			entry := `{"ip":"10.0.1.1"}` + "\n"
+			args := append([]string{}, cmd.args...)
+			if cmd.ports {
+				// c01cmds carry no port list: an address file needs one
+				args = append(args, "-p", "80")
+			}
+			sc := &vE2ESpec{Args: append(args, "--json", "-f", "{DIR}/t.jsonl", t), Files: map[string]string{"t.jsonl": entry}, Horizon: 60000, Positive: func(string, uint16) bool { return false }}
+			if cmd.kind != "arp" && cmd.kind != "app" {
+				sc.Stdin = vGatewayCache
+			}
+			run, x := vE2EOnce(sc)
+			c.Eval(1)
+			c.Nontrivial(1)
+			c.R.Transitions += int64(x.Steps)
+			dests, bad := c02dests(cmd, run)
+			rep := map[string]any{"part": "c02", "target": t, "command": cmd.name, "args": sc.Args}
+			class := c02class(t)
+			switch {
+			case len(x.Crashes) > 0:
+				c.Fail("nonipv4+file:crash:"+class, fmt.Sprintf("%s -f FILE %q: process crashes: %s", cmd.name, t, x.Crashes[0].Value), rep)
+			case len(dests) > 0 || bad != "":
+				c.Fail("nonipv4+file:ignored:"+class, fmt.Sprintf("%s -f FILE %q: the argument is not an IPv4 target, yet %d probes were sent (to the entries of the file)", cmd.name, t, len(dests)), rep)
+			case run.Err == "":
+				c.Fail("nonipv4+file:accepted:"+class, fmt.Sprintf("%s -f FILE %q: not an IPv4 target but the command reported success", cmd.name, t), rep)
+			default:
+				c.Outcome("refused+file")
+			}
+		}
+	}
 	// (ii) exclusion files
 	lines := []string{"10.0.1.19", "10.0.1.99", "10.0.1.20/30", "10.0.1.24/29", "10.0.1.0/24", "0.0.0.0/0", "10.0.1.16/29", "10.0.1.16", "10.0.1.16/30", "# comment", "", "10.0.1.21 # trailing", "  10.0.1.22  ", "\t10.0.1.23", "2001:db8::1", "#" + strings.Repeat("x", 70000)}
 	maxLen := 2
